@@ -89,6 +89,14 @@ def run(R, job):
             doc2 = core.HTMLDocument(manual).render()["html"]
             if doc != doc2:
                 fails.append({"input": "HTMLDocument(" + describe(t, ctx) + ")", "observed": doc, "expected": doc2})
+            # the user's own <html> / <body> as the sole content (the other two branches of the document builder)
+            for wrap in ("html", "body"):
+                mk = (lambda x: core.Tag("html", core.Tag("head", core.Tag("title", "t")), core.Tag("body", x))) if wrap == "html" else (lambda x: core.Tag("body", x, class_="b"))
+                d1 = core.HTMLDocument(mk(t)).render()
+                d2 = core.HTMLDocument(mk(manual)).render()
+                if d1["html"] != d2["html"] or [(d.name, str(d.version)) for d in d1["dependencies"]] != [(d.name, str(d.version)) for d in d2["dependencies"]]:
+                    fails.append({"input": f"HTMLDocument(<{wrap}> around " + describe(t, ctx) + ")", "observed": d1["html"][:600], "expected": d2["html"][:600]})
+                    break
         except Exception as ex:
             fails.append({"input": describe(t, ctx), "observed": "EXC " + type(ex).__name__ + ": " + str(ex)[:100], "expected": "rendering of the expansion"})
         # un-expanded objects: get_html_string must raise unless the object renders itself
